@@ -28,8 +28,12 @@ RULES = {
     "parallel writer) invokes the progress callback unconditionally in its per-tensor unit, and the units range over the whole "
     "tensor list - the loop has no skip before the invocation, the comprehension / loop that submits the worker has no filter - "
     "so a tensor the fast path considers uninteresting (zero bytes) is still reported, as the serial writer does",
+    "R9": "results keep their submission order: a loop over futures in *completion* order (`as_completed(...)`, the `done` set of "
+    "`wait(...)`) only waits and propagates errors - it never appends, extends or stores a future's result into a collection "
+    "(the returned tensors are matched with the initializers by position, so the order of the collected results must not depend "
+    "on which worker finishes first); positional results are gathered by iterating the list of futures in the order of submission",
 }
-FLOORS = {"R1": 6, "R2": 3, "R3": 1, "R4": 2, "R5": 3, "R6": 1, "R7": 2, "R8": 4}
+FLOORS = {"R1": 6, "R2": 3, "R3": 1, "R4": 2, "R5": 3, "R6": 1, "R7": 2, "R8": 4, "R9": 2}
 EXPLANATION = (
     "Lock-set analysis over the external-data writer: which fields are touched under which `with`, pairing of "
     "acquire/release through try/finally, lock context of every call path from submitted functions to tensor "
@@ -604,7 +608,36 @@ def _anc_nodes(node, stop):
         p = getattr(p, "_parent", None)
 
 
+def rule_r9(ctx):
+    mod = ctx.repo.module(ED)
+    n = 0
+    for f in mod.all_funcs:
+        if isinstance(f.node, ast.Lambda):
+            continue
+        for lp in (x for x in own_nodes(f.node) if isinstance(x, ast.For)):
+            it = lp.iter
+            futures_like = any(isinstance(x, ast.Call) and isinstance(x.func, ast.Attribute) and x.func.attr == "result" and isinstance(x.func.value, ast.Name)
+                               and isinstance(lp.target, ast.Name) and x.func.value.id == lp.target.id for st in lp.body for x in ast.walk(st))
+            if not futures_like:
+                continue
+            n += 1
+            unordered = any(isinstance(x, ast.Call) and (dotted_of(x.func) or "").split(".")[-1] in ("as_completed", "wait") for x in ast.walk(it)) or \
+                (isinstance(it, ast.Name) and any(isinstance(a, ast.Assign) and isinstance(a.value, ast.Call) and (dotted_of(a.value.func) or "").split(".")[-1] in ("as_completed", "wait")
+                                                  and any(isinstance(t, ast.Name) and t.id == it.id for tt in a.targets for t in ast.walk(tt)) for a in own_nodes(f.node)))
+            uses = [x for st in lp.body for x in ast.walk(st) if isinstance(x, ast.Call) and isinstance(x.func, ast.Attribute) and x.func.attr == "result"
+                    and isinstance(x.func.value, ast.Name) and x.func.value.id == lp.target.id and not isinstance(getattr(x, "_parent", None), ast.Expr)]
+            ok = not (unordered and uses)
+            ctx.check("R9", f"{f.local}: results of `{norm(it)[:50]}` are gathered in submission order", ok, f, uses[0] if uses and not ok else lp,
+                      f"the loop takes the futures in completion order (`{norm(it)[:60]}`) and uses what they return (`{norm(getattr(uses[0], '_parent', uses[0]))[:60] if uses else ''}`): "
+                      "the collected results are ordered by which worker finished first, while the caller matches them with the initializers by position - a later shard "
+                      "that finishes early gives initializers the location, offset and length of another tensor",
+                      how="loops over futures that read .result(): completion-ordered iteration (as_completed / wait) only in loops that discard the result",
+                      construct=f"result used in completion order in {f.local}")
+    ctx.require(n >= 2, f"only {n} loops over futures found in the external-data writer")
+
+
 def run(ctx):
+    rule_r9(ctx)
     rule_r8(ctx)
     _collect_lock_names(ctx)
     ctx.tables["lock names (by construction)"] = sorted(_LOCK_NAMES)
